@@ -1,11 +1,13 @@
 #!/bin/bash
-# verify every seed that has no verify.json with suite/demo results yet (sequential)
+# verify every seed that has no verify.json with suite/demo results yet (PAR at a time, default 2)
 cd /verif
+PAR=${PAR:-2}
+todo=""
 for d in seeded/*/; do
   d=${d%/}
   if [ -f "$d/verify.json" ] && grep -q '"demo_ok"' "$d/verify.json"; then continue; fi
   [ -f "$d/patch.diff" ] || continue
-  echo "=== $d $(date +%T)"
-  python3 tools/seedcheck.py "$d" > "$d/verify.log" 2>&1
-  tail -3 "$d/verify.log"
+  todo="$todo $d"
 done
+echo "to verify:$todo"
+echo $todo | tr ' ' '\n' | xargs -P $PAR -I{} sh -c 'echo "=== {} $(date +%T)"; python3 tools/seedcheck.py {} > {}/verify.log 2>&1; grep -E "\"(suite_ok|demo_ok|patch_applies)\"" {}/verify.log | tr "\n" " "; echo'
